@@ -89,6 +89,146 @@ def rule_invalid_child(ctx: Ctx, rep: Report) -> None:
     rep.ob(rule, "_invalid_child:class", ic.node.returns is not None and norm(ic.node.returns) == "BTClibValueError", ic.where(), "the invalid-child error is a BTClibValueError")
 
 
+def rule_no_skip(ctx: Ctx, rep: Report) -> None:
+    """C07.no_skip: nowhere in the bip32 package is a refusal of the derivation
+    swallowed -- every handler that can catch a BTClibValueError (it is a
+    ValueError) ends in a raise. A handler that `continue`s or `pass`es past an
+    invalid child hands back the *next* key under this index's place."""
+    from sa.effects import Raises
+    rule = "C07.no_skip"
+    R = Raises(ctx)
+    n = 0
+    for modname in (B, DP, "btclib.bip32.key_origin", "btclib.bip32.slip132"):
+        mi = ctx.prog.modules.get(modname)
+        if mi is None:
+            continue
+        for fi in sorted(mi.functions.values(), key=lambda f: f.qualname):
+            for t in own_nodes(fi.node):
+                if not isinstance(t, ast.Try):
+                    continue
+                for h in t.handlers:
+                    names = [norm(x) for x in (h.type.elts if isinstance(h.type, ast.Tuple) else [h.type])] if h.type is not None else ["BaseException"]
+                    catches = any(nm.split(".")[-1] in ("ValueError", "BTClibValueError", "Exception", "BaseException") for nm in names)
+                    if not catches:
+                        continue
+                    n += 1
+                    g = ctx.cfg(fi)
+                    # every path through the handler ends in a raise: no normal exit from its body
+                    ends = _handler_falls_through(h)
+                    rep.ob(rule, f"{fi.qualname}:except {'/'.join(names)}@{_nth(fi, t)}", not ends, fi.where(h),
+                           "the handler re-raises (a conversion, not a recovery)" if not ends else
+                           "the handler can complete normally: a refused step is skipped, and what comes back is another index's key (or a shorter list)")
+    rep.floor(rule, 4)
+
+
+def _nth(fi, t: ast.Try) -> int:
+    return [x for x in own_nodes(fi.node) if isinstance(x, ast.Try)].index(t)
+
+
+def _handler_falls_through(h: ast.ExceptHandler) -> bool:
+    """May the handler's body complete without raising (syntactic: last statement on every arm)."""
+    def falls(body: list[ast.stmt]) -> bool:
+        if not body:
+            return True
+        last = body[-1]
+        if any(isinstance(x, (ast.Continue, ast.Break, ast.Return)) for st in body for x in ast.walk(st)):
+            return True
+        if isinstance(last, ast.Raise):
+            return False
+        if isinstance(last, ast.If):
+            return falls(last.body) or falls(last.orelse)
+        return True
+    return falls(h.body)
+
+
+def rule_unchecked_escape(ctx: Ctx, rep: Report) -> None:
+    """C07.unchecked_escape: the private builders make keys with
+    `check_validity=False` ("not checked yet"); no public function of the module
+    hands one back without `assert_valid()` (or an encoding that validates) in
+    between -- else BIP32's "this key is invalid" cases (left half 0 or >= n
+    at the master, a version that is not a private one) come back as keys."""
+    rule = "C07.unchecked_escape"
+    mi = ctx.module(B)
+    funcs = [f for f in mi.functions.values() if f.parent is None]
+    tainted: dict[str, str] = {}
+
+    def validated(fi, name: str, ret: ast.Return) -> bool:
+        g = ctx.cfg(fi)
+        marks = []
+        for n in own_nodes(fi.node):
+            if isinstance(n, ast.Call) and isinstance(n.func, ast.Attribute) and n.func.attr == "assert_valid" and norm(n.func.value) == name and ctx.unconditional(g, n):
+                marks += g.nodes_containing(n)
+            # for key in <name>: key.assert_valid()
+            if isinstance(n, ast.For) and norm(n.iter) == name and isinstance(n.target, ast.Name):
+                if any(isinstance(st, ast.Expr) and isinstance(st.value, ast.Call) and norm(st.value.func) == f"{n.target.id}.assert_valid" for st in n.body):
+                    marks += [x.id for x in g.nodes if x.stmt is n or x.ast is n.iter or x.ast is n]
+        if not marks:
+            return False
+        return g.path_avoiding(g.nodes_containing(ret), marks) is None
+
+    def expr_taint(fi, e: ast.AST, ret: ast.Return, depth: int = 0) -> str | None:
+        if depth > 4:
+            return None
+        if isinstance(e, ast.Call):
+            if call_name(e) == "BIP32KeyData" and any(k.arg == "check_validity" and isinstance(k.value, ast.Constant) and k.value.value is False for k in e.keywords):
+                return f"BIP32KeyData(check_validity=False) @{fi.where(e)}"
+            q = ctx.resolve_call(fi, e)
+            if q in tainted:
+                return f"{q.rsplit('.', 1)[1]}() <- {tainted[q]}"
+            return None
+        if isinstance(e, (ast.List, ast.Tuple)):
+            for x in e.elts:
+                t = expr_taint(fi, x, ret, depth + 1)
+                if t:
+                    return t
+            return None
+        if isinstance(e, ast.ListComp):
+            return expr_taint(fi, e.elt, ret, depth + 1)
+        if isinstance(e, ast.Name):
+            if e.id in fi.params():
+                return None
+            for a in own_nodes(fi.node):
+                if isinstance(a, (ast.Assign, ast.AnnAssign)) and a.value is not None and any(norm(t) == e.id for t in (a.targets if isinstance(a, ast.Assign) else [a.target])):
+                    t = expr_taint(fi, a.value, ret, depth + 1)
+                    if t and not validated(fi, e.id, ret):
+                        return t
+                # x.append(tainted)
+                if isinstance(a, ast.Call) and isinstance(a.func, ast.Attribute) and a.func.attr in ("append", "extend") and norm(a.func.value) == e.id and a.args:
+                    t = expr_taint(fi, a.args[0], ret, depth + 1)
+                    if t and not validated(fi, e.id, ret):
+                        return t
+            return None
+        return None
+
+    changed = True
+    while changed:
+        changed = False
+        for fi in funcs:
+            if fi.qualname in tainted:
+                continue
+            for r in own_nodes(fi.node):
+                if isinstance(r, ast.Return) and r.value is not None:
+                    t = expr_taint(fi, r.value, r)
+                    if t:
+                        tainted[fi.qualname] = t
+                        changed = True
+                        break
+    n = 0
+    for fi in sorted(funcs, key=lambda f: f.qualname):
+        local = fi.qualname[len(B) + 1:]
+        if local.startswith("_") or "." in local:
+            continue
+        ann = norm(fi.node.returns) if fi.node.returns is not None else ""
+        if "BIP32KeyData" not in ann:
+            continue
+        n += 1
+        t = tainted.get(fi.qualname)
+        rep.ob(rule, local, t is None, fi.where(), "every key handed back was validated after it was built" if t is None else
+               f"hands back a key nobody validated: {t}")
+    rep.ob(rule, "builders_unchecked", len(tainted) >= 3, mi.relpath + ":1", f"private builders that return unchecked keys: {sorted(q.rsplit('.', 1)[1] for q in tainted)}")
+    rep.floor(rule, 5)
+
+
 def rule_hmac_shape(ctx: Ctx, rep: Report) -> None:
     """C07.hmac_shape: what enters HMAC-SHA512 at each step."""
     rule = "C07.hmac_shape"
@@ -179,6 +319,8 @@ def rule_neuter(ctx: Ctx, rep: Report) -> None:
 RULES = [
     ("C07.hardened_pub", rule_hardened_pub),
     ("C07.invalid_child", rule_invalid_child),
+    ("C07.no_skip", rule_no_skip),
+    ("C07.unchecked_escape", rule_unchecked_escape),
     ("C07.hmac_shape", rule_hmac_shape),
     ("C07.ranges", rule_ranges),
     ("C07.fingerprint_order", rule_fingerprint_order),
@@ -186,6 +328,11 @@ RULES = [
 ]
 
 CONTROLS = [
+    {"rule": "C07.no_skip", "name": "a refused address index is skipped", "module": B,
+     "edit": lambda ctx: M.sub_expr(ctx, f"{B}.derive_from_account_range_", lambda n: isinstance(n, ast.Assign) and isinstance(n.value, ast.ListComp) and "_derive" in norm(n.value),
+                                    "derived = []\n    for index in address_indexes:\n        try:\n            derived.append(_derive(branch_key, f'm/{index}', None))\n        except BTClibValueError:\n            continue")},
+    {"rule": "C07.unchecked_escape", "name": "derive_ hands back the unchecked key", "module": B,
+     "edit": lambda ctx: M.drop_call_stmt(ctx, f"{B}.derive_", "assert_valid")},
     {"rule": "C07.hardened_pub", "name": "only the first index is checked for hardening", "module": B,
      "edit": lambda ctx: M.sub_expr(ctx, f"{B}.__pub_key_path_derivation", lambda n: isinstance(n, ast.Call) and call_name(n) == "any", "indexes[0] >= _HARDENED_OFFSET")},
     {"rule": "C07.invalid_child", "name": "left half compared with > n", "module": B,
